@@ -187,7 +187,9 @@ static void random_history(long hist, int is_signed, int len)
 		case 6: do_get(hist, c, T[vh_below(&rng, 3)]); break;
 		case 7:
 			switch (vh_below(&rng, 4)) {
-			case 0: do_set(hist, c, T[vh_below(&rng, 3)], NULL); break;	/* refused: no change */
+			case 0: if (vh_below(&rng, 2)) do_set(hist, c, T[vh_below(&rng, 3)], NULL);	/* refused: no change */
+				else do_set(hist, c, T[vh_below(&rng, 3)], vh_below(&rng, 2) ? "caf\xe9" : "\xff\xfe");	/* refused: not UTF-8 */
+				break;
 			case 1: do_set(hist, c, JWT_CLAIM_EXP, "x"); break;		/* refused: not a string claim */
 			case 2: do_del(hist, c, JWT_CLAIM_NBF); break;			/* refused */
 			default: do_set(hist, c, JWT_CLAIM_ISS | JWT_CLAIM_SUB, "x"); break;	/* refused: two bits */
